@@ -149,20 +149,27 @@ def insert_loop_contracts(body, loops, fired, name):
             if o >= len(heads): raise SliceError('%s: loop ordinal %d not found (function has %d loops)' % (name, o, len(heads)))
             target[o] = o; continue
         want = frozen[str(o)]
-        rank = sum(1 for k in range(o) if frozen.get(str(k)) == want) if all(str(k) in frozen for k in range(o)) else 0
-        same = [i for i, (_, h) in enumerate(heads) if h == want]
+        if len(heads) == len(frozen) and o < len(heads) and heads[o][1] == want:
+            target[o] = o; continue          # nothing moved: same header at the same position
         def loopvar(h):
             mm = re.match(r'for \((?:[\w\s\*]+?[\s\*])?(\w+)\s*=', h) or re.match(r'while \(\s*!?\s*\(?\s*(\w+)', h)
             return mm.group(1) if mm else None
-        if len(same) <= rank and len(heads) == len(frozen) and o < len(heads) and loopvar(heads[o][1]) is not None and loopvar(heads[o][1]) == loopvar(want):
-            # same number of loops as when the contract was written: the header was edited in place (e.g. a changed bound) -- the contract stays
-            # with the loop at its position, and a wrong bound then fails the contract instead of hiding behind a slicer error
+        if len(heads) == len(frozen) and o < len(heads) and loopvar(heads[o][1]) is not None and loopvar(heads[o][1]) == loopvar(want):
+            # same number of loops as when the contract was written and the same loop variable at this position: the header was edited in place (e.g. a
+            # changed bound or comparison) -- the contract stays with the loop, and a wrong bound then fails the contract instead of hiding behind a slicer error
             target[o] = o; fired['R-loop.by_position'] = fired.get('R-loop.by_position', 0) + 1; continue
+        rank = sum(1 for k in range(o) if frozen.get(str(k)) == want) if all(str(k) in frozen for k in range(o)) else 0
+        same = [i for i, (_, h) in enumerate(heads) if h == want]
         if len(same) <= rank:
             # the loop is gone (rewritten in another shape): the function is still sliced, WITHOUT this loop contract; jobs that enforce its function
             # contract through loop contracts are undecided (they need a new invariant), lemma harnesses that unwind still decide what they can
             fired['R-loop.dropped'] = fired.get('R-loop.dropped', 0) + 1; continue
         target[o] = same[rank]
+    seen_t = {}
+    for o in sorted(target):
+        if target[o] in seen_t:   # two contracts claim one loop: keep the first, the other one is dropped (its job becomes undecided)
+            del target[o]; fired['R-loop.dropped'] = fired.get('R-loop.dropped', 0) + 1
+        else: seen_t[target[o]] = o
     out = []; last = 0
     for o in sorted(target, key=lambda k: target[k]):
         q = heads[target[o]][0]
